@@ -197,6 +197,13 @@ func slug(s string) string {
 	return strings.TrimRight(sb.String(), "-")
 }
 
+func panicKey(op *opDef, base, text string) string {
+	if op.enumOnly {
+		return base
+	}
+	return base + "/" + slug(text)
+}
+
 func recvName(t recvType) string {
 	return [...]string{"func", "Dense", "VecDense", "SymDense", "TriDense"}[t]
 }
@@ -395,7 +402,7 @@ func checkOp(sub string, c opCase) *vk.Failure {
 		return fmt.Sprintf("%s(%s) %s recv=%s dims=%v alpha=%v p=%d mode=%d", op.name, strings.Join(names, ", "), run, stateNames[state], d, x.alpha, x.p, c.Mode)
 	}
 	if res := vk.Call(func() { op.run(x) }); res.Outcome != vk.Returned {
-		return vk.Failf("panic/"+slug(res.Text), "%s ended in %v: %s", what("rendered operands"), res.Outcome, res.Text)
+		return vk.Failf(panicKey(op, "panic", res.Text), "%s ended in %v: %s", what("rendered operands"), res.Outcome, res.Text)
 	}
 	if x.err != nil {
 		return vk.Failf("error", "%s returned error %v on a well-conditioned operand", what("rendered operands"), x.err)
@@ -444,7 +451,7 @@ func checkOp(sub string, c opCase) *vk.Failure {
 		x2.recv = newReceiver(op.recv, st2, rr, rc, upper, b, init2)
 	}
 	if res := vk.Call(func() { op.run(&x2) }); res.Outcome != vk.Returned {
-		return vk.Failf("panic-basic/"+slug(res.Text), "%s ended in %v: %s", what("basic operands"), res.Outcome, res.Text)
+		return vk.Failf(panicKey(op, "panic-basic", res.Text), "%s ended in %v: %s", what("basic operands"), res.Outcome, res.Text)
 	}
 	if x2.err != nil {
 		return vk.Failf("error-basic", "%s returned error %v", what("basic operands"), x2.err)
@@ -596,7 +603,9 @@ func drawCase(t *rapid.T, op *opDef, maxDim int) opCase {
 func TestOpsRandom(t *testing.T) {
 	var names []string
 	for _, op := range ops {
-		names = append(names, op.name)
+		if !op.enumOnly {
+			names = append(names, op.name)
+		}
 	}
 	vk.Run(t, "rand/small", vk.Opts{Quick: 20000, Thorough: 400000, NoCrumb: true}, func(t *rapid.T) opCase {
 		op := opByID[rapid.SampledFrom(names).Draw(t, "op")]
